@@ -68,6 +68,11 @@ enum Script {
 
 pub struct SimReader {
     data: Rc<Vec<u8>>,
+    /// positions just after each LF, and of each CR that is followed by LF (sorted); with cursors
+    line_ends: Vec<usize>,
+    crlfs: Vec<usize>,
+    le_cur: usize,
+    cr_cur: usize,
     pos: usize,
     script: Script,
     pub shared: Rc<RefCell<Shared>>,
@@ -76,20 +81,35 @@ pub struct SimReader {
 impl SimReader {
     pub fn generated(data: Rc<Vec<u8>>, rng: Rng, cfg: GenScript) -> (SimReader, Rc<RefCell<Shared>>) {
         let shared = Rc::new(RefCell::new(Shared { trace: vec![], stats: ReadStats::default(), cur_call: 0, hard_fired_at_call: None, pos: 0 }));
-        (SimReader { data, pos: 0, script: Script::Gen { rng, cfg, consecutive_eintr: 0, hard_fired: false }, shared: shared.clone() }, shared)
+        let (line_ends, crlfs) = index_lines(&data);
+        (SimReader { data, line_ends, crlfs, le_cur: 0, cr_cur: 0, pos: 0, script: Script::Gen { rng, cfg, consecutive_eintr: 0, hard_fired: false }, shared: shared.clone() }, shared)
     }
     pub fn replaying(data: Rc<Vec<u8>>, list: Vec<Dec>) -> (SimReader, Rc<RefCell<Shared>>) {
         let shared = Rc::new(RefCell::new(Shared { trace: vec![], stats: ReadStats::default(), cur_call: 0, hard_fired_at_call: None, pos: 0 }));
-        (SimReader { data, pos: 0, script: Script::Replay { list, idx: 0 }, shared: shared.clone() }, shared)
+        let (line_ends, crlfs) = index_lines(&data);
+        (SimReader { data, line_ends, crlfs, le_cur: 0, cr_cur: 0, pos: 0, script: Script::Replay { list, idx: 0 }, shared: shared.clone() }, shared)
     }
 
-    fn next_line_end(&self) -> Option<usize> {
-        self.data[self.pos..].iter().position(|b| *b == b'\n').map(|i| i + 1)
+    /// distance from the current position to just after the next LF
+    fn next_line_end(&mut self) -> Option<usize> {
+        while self.le_cur < self.line_ends.len() && self.line_ends[self.le_cur] <= self.pos {
+            self.le_cur += 1;
+        }
+        self.line_ends.get(self.le_cur).map(|e| e - self.pos)
+    }
+
+    /// distance to just after the next CR that is followed by LF
+    fn next_crlf_split(&mut self) -> Option<usize> {
+        while self.cr_cur < self.crlfs.len() && self.crlfs[self.cr_cur] < self.pos {
+            self.cr_cur += 1;
+        }
+        self.crlfs.get(self.cr_cur).map(|c| c + 1 - self.pos)
     }
 
     fn choose(&mut self, buf_len: usize) -> Dec {
         let remaining = self.data.len() - self.pos;
         let to_line_end = self.next_line_end();
+        let to_crlf = self.next_crlf_split();
         let data = self.data.clone();
         let pos = self.pos;
         match &mut self.script {
@@ -125,13 +145,10 @@ impl SimReader {
                         let conts: Vec<usize> = win.iter().enumerate().filter(|(_, b)| (**b & 0xC0) == 0x80).map(|(i, _)| i).collect();
                         if conts.is_empty() { 1 + rng.usize_below(7) } else { conts[rng.usize_below(conts.len())] }
                     }
-                    5 => {
-                        let win = &data[pos..(pos + 20000).min(data.len())];
-                        match win.windows(2).position(|w| w == b"\r\n") {
-                            Some(i) => i + 1,
-                            None => to_line_end.unwrap_or(remaining),
-                        }
-                    }
+                    5 => match to_crlf {
+                        Some(i) if i > 0 => i,
+                        _ => to_line_end.unwrap_or(remaining),
+                    },
                     _ => buf_len,
                 };
                 if k == 0 {
@@ -207,6 +224,20 @@ impl io::Read for SimReader {
             }
         }
     }
+}
+
+fn index_lines(data: &[u8]) -> (Vec<usize>, Vec<usize>) {
+    let mut le = vec![];
+    let mut cr = vec![];
+    for (i, b) in data.iter().enumerate() {
+        if *b == b'\n' {
+            le.push(i + 1);
+            if i > 0 && data[i - 1] == b'\r' {
+                cr.push(i - 1);
+            }
+        }
+    }
+    (le, cr)
 }
 
 pub fn trace_to_json(t: &[Dec]) -> Value {
